@@ -241,6 +241,9 @@ for _op in ('mul_2exp', 'div_2exp'):
                 _old = _u['name']; _u['name'] = _old + '_' + _zt + '_' + _pt
                 _u['harness'] = _u['harness'].replace('h_' + _old + ' (void)', 'h_' + _u['name'] + ' (void)').replace('  long len0 = rn - z;', '  long len0 = rn - z;\n  __CPROVER_assume (%s && %s);' % (_zc, _pc))
                 _u['assumptions'] = _u['assumptions'] + ['path partition: %s, %s (the four path partitions are separate units)' % (_zc, _pc)]
+                # must-fail mutants only where the mutated statement is reachable: all three on the bit-shift path, the whole-limb one on the copy path too
                 if not (_op == 'mul_2exp' and _al and _zt == 'zp'): _u['selftest'] = []
-                _u['tier'] = 'off'        # enabled below once decided on the unchanged tree
+                elif _pt == 'copy': _u['selftest'] = _u['selftest'][2:]
+                # all sixteen proved on the unchanged tree (95-430 s, 1.3-2.7 GB each); the in-place ones (where defect bc7e1ad sat) run in the quick tier, the distinct-operand ones in the thorough tier
+                _u['tier'] = 'quick' if _al else 'thorough'
                 UNITS.append(_u)
